@@ -1851,7 +1851,19 @@ fn main() {
             "seq" => seq_case(cs, &mut total),
             "tamper" => tamper_case(cs, &mut total),
             "replay" => replay_case(cs, &mut total),
-            "concurrent" => conc_case(cs, &mut total, rp["mode"].as_u64()),
+            "concurrent" => {
+                // the configuration and the hook-level schedule are replayed exactly; what happens
+                // between the hook and the append is decided by the OS scheduler, so the case is
+                // repeated until it shows a violation again (bounded)
+                let attempts = args.extra_u64("replay-attempts", 400);
+                for k in 0..attempts {
+                    conc_case(cs, &mut total, rp["mode"].as_u64());
+                    if total.violations_total > 0 {
+                        total.count("replay_attempts_needed", k + 1);
+                        break;
+                    }
+                }
+            }
             other => eprintln!("unknown part {:?} in replay file", other),
         }
     } else {
